@@ -698,6 +698,10 @@ func runL2(args []string) {
 	parseRejected := 0
 
 	for i := 0; i < *n; i++ {
+		if hangCount >= maxHangs {
+			rep.Notes = append(rep.Notes, fmt.Sprintf("stopped after %d of %d cases: %d calls hung", i, *n, hangCount))
+			break
+		}
 		cr := r.Fork()
 		c, ok := genL2(cr, g, seeds)
 		if !ok {
